@@ -206,7 +206,11 @@ impl Inner {
     }
 
     pub fn send(&mut self, msg: Vec<u8>) {
-        assert!(msg.len() > MESSAGE_HEADER_SIZE);
+        // A frame without payload is not a publication; ignore it rather than
+        // panic while the relay lock is held (that would poison the lock).
+        if msg.len() <= MESSAGE_HEADER_SIZE {
+            return;
+        }
 
         let hdr: &MsgHdr = msg.as_slice().try_into().unwrap();
         let now = Instant::now();
